@@ -157,6 +157,8 @@ def _ev(e, env):
     """Evaluate a width-guard expression over the finite domain (bits, integer dtype)."""
     if isinstance(e, ast.Constant):
         return e.value
+    if isinstance(e, ast.Attribute) and norm(e) in env:
+        return env[norm(e)]  # the setting read where it is used instead of through a local
     if isinstance(e, ast.Name):
         if e.id in env:
             return env[e.id]
@@ -247,7 +249,7 @@ def r3_type_wide_enough(ctx):
             for bits in range(1, 65):
                 for w in (8, 16, 32, 64):
                     d = _DT(kind, w)
-                    env = {"bit_resolution": bits}
+                    env = {"bit_resolution": bits, f"{f.params[0]}.characteristics.adc_bit_resolution": bits}
                     env.update({a_: d for a_ in aliases})
                     raised = False
                     for gd in guards:
